@@ -8,7 +8,8 @@
        ag  bytes requested by the `make` calls that commit 14ba147 guards with
            `uint64(vs) > uint64(r.Len())` (the vectors of the type, import, function, table, memory,
            global, element, code, data sections and the two element-init vectors);
-       au  bytes requested by the count/size-driven `make` calls that are NOT guarded in /repo today:
+       au  bytes requested by the count/size-driven `make` calls that commit 14ba147 left unguarded
+           (findings 1-4 of C03; fixes 1, 3, 4 bound all of them but the locals):
            the export vector and its map, name-section maps, every `make([]byte, size)` that precedes an
            io.ReadFull (names, value types, data init, code body, custom data) and the locals vector
            `make([]ValueType, 0, sum)` (which the decoder then fills with `sum` appends: the inner
@@ -20,9 +21,10 @@
      Charges use the element sizes of the amd64 build (unsafe.Sizeof, compared with the binary by the
      harness): FunctionType 80, Import 88, Index 4, Table 24, Global 40, Export 32 (+ at least 24 per
      entry for the map), ElementSegment 72, Code 72, DataSegment 64, NameAssoc 24, NameMapAssoc 32.
-   * cfg selects which guards exist: [coded] is /repo's HEAD, [before_fix] the tree before commit
-     14ba147, [repaired L] a hypothetical decoder that also guards the remaining sites and limits
-     the locals of one function to L.
+   * cfg selects which guards exist: [coded] follows /repo's working tree (one boolean switch per finding,
+     see below), [found_at_7267a3c] is the tree on which the findings were made, [before_fix] the tree
+     before commit 14ba147, [repaired L] a decoder with every patch of notes/fix-c03-*.patch that also
+     limits the locals of one function to L.
    * Fixed configuration: api.CoreFeaturesV2 (every RequireEnabled passes, threads off),
      memoryLimitPages = 65536, memoryCapacityFromMax = false, dwarfEnabled = true,
      storeCustomSections = false (what wazero.NewRuntimeConfig() gives CompileModule).
@@ -49,10 +51,28 @@ Arguments Ok {A}. Arguments Err {A}. Arguments OutOfFuel {A}.
 Definition dec (A : Type) : Type := list Z -> res A.
 Definition len (bs : list Z) : Z := Z.of_nat (length bs).
 
-Record cfg := mkCfg { g_vec : bool; g_more : bool; locals_max : Z }.
-Definition coded : cfg := mkCfg true false 4294967295.          (* HEAD: `sum > math.MaxUint32` *)
-Definition before_fix : cfg := mkCfg false false 4294967295.
-Definition repaired (L : Z) : cfg := mkCfg true true L.
+Record cfg := mkCfg {
+  g_vec : bool;        (* the twelve `vs > r.Len()` guards of commit 14ba147 *)
+  g_export : bool;     (* the same guard in decodeExportSection              (notes/fix-c03-1.patch) *)
+  g_names : bool;      (* name-section maps preallocate min(count, r.Len())   (notes/fix-c03-3.patch) *)
+  g_bytes : bool;      (* size <= r.Len() before every make([]byte, size)     (notes/fix-c03-4.patch) *)
+  fix_custom : bool;   (* decodeCustomSection uses io.ReadFull, not one Read  (notes/fix-c03-5.patch) *)
+  locals_max : Z }.    (* largest accepted number of locals of one function *)
+
+(* ONE SWITCH PER FINDING: set to true once the corresponding patch is committed in /repo. [coded] is the
+   configuration the correspondence run compares with /repo's working tree. *)
+Definition fix1_export_guard : bool := false.
+Definition fix3_names_cap : bool := false.
+Definition fix4_bytes_guard : bool := false.
+Definition fix5_custom_readfull : bool := false.
+Definition coded : cfg :=
+  mkCfg true fix1_export_guard fix3_names_cap fix4_bytes_guard fix5_custom_readfull 4294967295.  (* `sum > math.MaxUint32` *)
+
+Definition found_at_7267a3c : cfg := mkCfg true false false false false 4294967295.   (* /repo when the findings were made *)
+Definition before_fix : cfg := mkCfg false false false false false 4294967295.         (* before commit 14ba147 *)
+Definition repaired (L : Z) : cfg := mkCfg true true true true true L.                 (* all patches, at most L locals *)
+(* every count/size-driven allocation outside the 14ba147 sites is bounded by the remaining input *)
+Definition au_guarded (cf : cfg) : bool := g_export cf && g_names cf && g_bytes cf.
 
 (* ---- combinators ---- *)
 Definition ret {A} (a : A) : dec A := fun bs => Ok a bs c0.
@@ -195,12 +215,15 @@ Notation "d ;;; e" := (bind d (fun _ => e)) (at level 61, right associativity).
 (* guarded vector (14ba147): guard; result := make([]T, vs); loop *)
 Definition gvec {A} (E vs : Z) (body : A -> dec A) (a : A) : dec A :=
   guard (g_vec cf) vs ;;; chg_g (E * vs) ;;; vec vs body a.
-(* vector without a guard in HEAD *)
+(* the export vector: no guard on 7267a3c, the 14ba147 guard with fix 1 *)
 Definition uvec {A} (site E vs : Z) (body : A -> dec A) (a : A) : dec A :=
-  guard (g_more cf) vs ;;; chg_u site (E * vs) ;;; vec vs body a.
+  guard (g_export cf) vs ;;; chg_u site (E * vs) ;;; vec vs body a.
+(* name-section maps: make(T, count) on 7267a3c; with fix 3 make(T, 0, min(count, r.Len())) and append *)
+Definition cvec {A} (site E vs : Z) (body : A -> dec A) (a : A) : dec A := fun bs =>
+  (chg_u site (E * (if g_names cf then Z.min vs (len bs) else vs)) ;;; vec vs body a) bs.
 (* buf := make([]byte, n); io.ReadFull(r, buf) *)
 Definition bytes_u (n : Z) : dec (list Z) :=
-  guard (g_more cf) n ;;; chg_u 4 n ;;; take n.
+  guard (g_bytes cf) n ;;; chg_u 4 n ;;; take n.
 
 (* value.go *)
 Definition valtypes (num : Z) : dec (list Z) :=
@@ -357,10 +380,10 @@ Definition data_section : dec unit := vs <- u32 ;; gvec 64 vs (fun _ => data_seg
 
 (* names.go *)
 Definition name_assoc : dec unit := u32 ;;; utf8 ;;; ret tt.
-Definition function_names : dec unit := c <- u32 ;; uvec 2 24 c (fun _ => name_assoc) tt.
+Definition function_names : dec unit := c <- u32 ;; cvec 2 24 c (fun _ => name_assoc) tt.
 Definition local_names : dec unit :=
   c <- u32 ;;
-  uvec 2 32 c (fun _ => u32 ;;; lc <- u32 ;; uvec 2 24 lc (fun _ => name_assoc) tt) tt.
+  cvec 2 32 c (fun _ => u32 ;;; lc <- u32 ;; cvec 2 24 lc (fun _ => name_assoc) tt) tt.
 (* for limit > 0 { id := ReadByte (EOF: return what we have); limit--; size := u32; limit -= bytesRead;
                    switch id {...}; limit -= size }   — uint64 arithmetic, sizes of subsections are not checked *)
 Definition name_sub_body (limit : Z) : dec (Z * bool) :=
@@ -381,15 +404,16 @@ Definition name_subsection (limit : Z) : dec (Z * bool) :=
 Definition name_section (limit : Z) : dec unit := iter name_subsection limit ;;; ret tt.
 
 (* decoder.go, case wasm.SectionIDCustom (dwarfEnabled: every non-"name" custom section is stored;
-   decodeCustomSection does ONE r.Read, which fails with io.EOF when the reader is at its end — even
-   for an empty payload — and otherwise silently reads short) *)
+   on 7267a3c decodeCustomSection does ONE r.Read, which fails with io.EOF when the reader is at its end —
+   even for an empty payload — and otherwise silently reads short; with fix 5 it is an io.ReadFull) *)
 Definition read_once (limit : Z) : dec unit := fun bs =>
   match bs with
   | [] => Err c0
   | _ :: _ => Ok tt (skipn (Z.to_nat (Z.min limit (len bs))) bs) c0
   end.
 Definition custom_data (limit : Z) : dec unit :=
-  guard (g_more cf) limit ;;; chg_u 4 limit ;;; read_once limit.
+  guard (g_bytes cf) limit ;;; chg_u 4 limit ;;;
+  if fix_custom cf then take limit ;;; ret tt else read_once limit.
 Definition custom_section (size : Z) (s : mstate) : dec mstate :=
   p <- utf8 ;;
   if size <? snd p then fail else
